@@ -349,7 +349,7 @@ func C04Scenario() *Scenario {
 		w.Invariants = append(w.Invariants, twoControllers)
 		w.Stages = []Stage{
 			{Name: "chaos", Policy: pol, Steps: 200 + 100*t.Pick(3, "len")},
-			{Name: "drain", Quiet: true, MaxSteps: 3000, Do: func(w *World) { b.Left = 0 }, Check: func(w *World) *Violation { return c04Oracle(w, s) }},
+			{Name: "drain", Quiet: true, CheckOnBudget: true, MaxSteps: 3000, Do: func(w *World) { b.Left = 0 }, Check: func(w *World) *Violation { return c04Oracle(w, s) }},
 		}
 	}}
 }
